@@ -29,6 +29,7 @@ static struct iauth_request *mk_request(void)
     r->nickname[NICKLEN] = 0; r->realname[REALLEN] = 0; r->account[ACCOUNTLEN] = 0;
     r->class[CLASSLEN] = 0; r->text_addr[IRC_NTOP_MAX - 1] = 0;
     r->timeout = in_have_timer ? malloc(1) : NULL;
+    V_ASSUME(r->start_time >= 0 && r->start_time < (1L << 40));          /* a sane clock (S3) */
     r->data.compare = set_compare_voidp; r->data.cleanup = NULL; r->data.root = NULL; r->data.count = 0;
     V_ASSUME(!RESPONDED(r));                       /* INV: live requests are undecided */
     iauth_flags.bits[0] = in_required & ~((1u << IAUTH_RESPONDED) | (1u << IAUTH_TIMED_OUT));   /* calc_iauth_flags, proved in C02.calc_flags */
@@ -48,8 +49,8 @@ static void gm_effect(struct iauth_request *r)
     r->holds = in_modcb_holds;
     r->soft_holds = in_modcb_soft;
 }
-static void gm_field_change(struct iauth_request *r, enum iauth_flags flag) { G.cb_field_change++; G.cb_last_flag = (int)flag; gm_effect(r); }
-static void gm_user_info(struct iauth_request *r) { G.cb_user_info++; gm_effect(r); }
+static void gm_field_change(struct iauth_request *r, enum iauth_flags flag) { G.cb_field_change++; G.cb_last_flag = (int)flag; G.cb_flags_seen = r->flags.bits[0]; gm_effect(r); }
+static void gm_user_info(struct iauth_request *r) { G.cb_user_info++; G.cb_flags_seen = r->flags.bits[0]; gm_effect(r); }
 static void gm_password(struct iauth_request *r, const char pw[]) { G.cb_password++; G.cb_password_text = pw; gm_effect(r); }
 static void gm_disconnect(struct iauth_request *r) { G.cb_disconnect++; (void)r; }
 static void gm_registered(struct iauth_request *r, int from_ircd) { G.registered_cb++; (void)r; (void)from_ircd; }
